@@ -486,7 +486,9 @@ func c08Templates(t *testing.T, st *kvh.Stats) {
 							if ak == "merge" {
 								c.Window.A.Key = ""
 							}
+							kvh.PersistCase("C08", c)
 							feat, f := runWindow(c)
+							kvh.ClearPersisted("C08")
 							c08Account(t, st, c, feat, f, "template")
 						}
 					}
@@ -555,7 +557,9 @@ func c08GeneratedWindow(t *rapid.T, st *kvh.Stats) {
 	for i, n := 0, kvh.U(t, 4, "npost"); i < n; i++ {
 		c.Post = append(c.Post, genC08Op(t, keys, "post"))
 	}
+	kvh.PersistCase("C08", c)
 	feat, f := runWindow(c)
+	kvh.ClearPersisted("C08")
 	c08Account(t, st, c, feat, f, "generated-window")
 }
 
@@ -676,7 +680,9 @@ func c08FreeRunning(t *rapid.T, st *kvh.Stats) {
 		c.Clients = append(c.Clients, prog)
 	}
 	c.Merger = kvh.Pct(t, 30, "merger")
+	kvh.PersistCase("C08", c)
 	feat, f := runFree(c)
+	kvh.ClearPersisted("C08")
 	c08Account(t, st, c, feat, f, "free-running")
 }
 
